@@ -88,7 +88,7 @@ pub fn run(out: &mut Out, seed: u64, thorough: bool) {
         match i % 6 { 1 => crate::drv_reader::mutate(&mut rng, &mut bytes), 2 => { let l = rng.below(bytes.len() + 1); bytes.truncate(l); } _ => {} }
         if bytes.len() > 200_000 { continue; }
         let mut ms = Vec::new(); for d in &doc { d.masters(&mut ms); } ms.sort(); ms.dedup();
-        let buffer: Vec<u64> = if i % 4 == 3 { ms.into_iter().filter(|_| rng.chance(1, 2)).collect() } else { vec![] };
+        let buffer: Vec<u64> = if i % 4 == 3 || i % 7 == 5 { ms.into_iter().filter(|_| rng.chance(1, 2)).collect() } else { vec![] };
         case_header::<DynTag>(out, n, "reader", &s.ids(), json!({"rel":"sched"})); n += 1;
         let mut cfg = ReaderCfg::strict(); cfg.buffer = buffer.clone();
         run_reader::<DynTag>(out, "blocking", &bytes, &cfg, &[], &Calls::UntilEnd { extra: 1, max_calls: 3 * bytes.len() + 50 });
@@ -106,6 +106,13 @@ pub fn run(out: &mut Out, seed: u64, thorough: bool) {
         } else {
             for k in 0..3 { let mut sc = Vec::new(); let mut left = bytes.len(); while left > 0 { let mx = [1usize, 3, 16, 200, 70000][rng.below(5)]; let x = 1 + rng.below(mx); sc.push(x); left = left.saturating_sub(x); }
                 run_async(out, &format!("async:r{k}"), &bytes, &buffer, &sc, k == 2, sc.len() > 1 || !single); }
+            if bytes.len() <= 160 {
+                // every position as the end of the first read (a tag straddling two reads, a read ending at a tag boundary), the rest at once
+                for cut in 1..bytes.len() { run_async(out, &format!("async:cut{cut}"), &bytes, &buffer, &[cut], false, true); }
+                // one byte per read
+                run_async(out, "async:bytewise", &bytes, &buffer, &vec![1usize; bytes.len()], false, true);
+                run_async(out, "stream:bytewise", &bytes, &buffer, &vec![1usize; bytes.len()], true, true);
+            }
         }
         out.ev(json!({"ev":"end"}));
     }
